@@ -117,11 +117,24 @@ def domain_ok(dom):
 def make_system(spec):
     import pyPRISM
     types = list(spec['types'])
-    sys_ = pyPRISM.System(types, kT=spec['kT'])
-    sys_.domain = make_domain(spec['domain'])
-    for t in types:
-        sys_.density[t] = spec['density'][t]
-        sys_.diameter[t] = spec['diameter'][t]
+    if spec.get('style') == 'edits':
+        # the same specification reached through a short edit history (temperature assigned after construction,
+        # densities/diameters first set for all types through a list key, then overwritten one by one through
+        # one-element list keys in reverse order): by C15/C16 the result is the same System
+        sys_ = pyPRISM.System(types, kT=spec['kT'] * 1.7 + 0.1)
+        sys_.domain = make_domain(spec['domain'])
+        sys_.kT = spec['kT']
+        sys_.density[types] = 0.0123
+        sys_.diameter[types] = 0.77
+        for t in reversed(types):
+            sys_.density[[t]] = spec['density'][t]
+            sys_.diameter[[t]] = spec['diameter'][t]
+    else:
+        sys_ = pyPRISM.System(types, kT=spec['kT'])
+        sys_.domain = make_domain(spec['domain'])
+        for t in types:
+            sys_.density[t] = spec['density'][t]
+            sys_.diameter[t] = spec['diameter'][t]
     for a, b in pairs_of(types):
         p = spec['pairs'][pair_key(types, a, b)]
         sys_.closure[a, b] = make_closure(p['closure'])
